@@ -549,9 +549,14 @@ def replay_process_independence(p):
     payload = json.dumps({"text": p["text"], "rows": rows})
     outs = []
     envs = [("0", "C", None), ("1", "C.UTF-8", "/"), ("2", "C", None), ("12345", "POSIX", "/tmp"), ("random", "C", None),
-            ("3", "C", None), ("4", "C", None), ("5", "C", None)]
-    for seed, lang, cwd in envs:
+            ("3", "C", None, {"PYTHONUTF8": "0", "PYTHONCOERCECLOCALE": "0"}), ("4", "C", None, {"PYTHONUTF8": "1"}),
+            ("5", "POSIX", None, {"PYTHONUTF8": "0", "PYTHONCOERCECLOCALE": "0", "PYTHONIOENCODING": "latin-1"})]
+    for spec in envs:
+        seed, lang, cwd = spec[:3]
         env = dict(os.environ, PYTHONHASHSEED=seed, LANG=lang, LC_ALL=lang, PYAB_REPO=repo, VERIF_DIR=verif)
+        env.pop("PYTHONUTF8", None)
+        env.pop("PYTHONCOERCECLOCALE", None)
+        env.update(spec[3] if len(spec) > 3 else {})
         r = subprocess.run([sys.executable, "-c", _CHILD], input=payload, capture_output=True, text=True, env=env,
                            cwd=cwd or verif, timeout=120)
         line = [l for l in r.stdout.splitlines() if l.startswith("{")]
